@@ -367,6 +367,15 @@ pub fn exec(it: &mut Interp, toks: &[&str], out: &mut Vec<String>) -> bool {
             if let Some(k) = cs.iter().position(|c| *c == 'o') {
                 out.push(format!("oracle FAIL a file extended by {} bytes was accepted", k + 1));
             }
+            // the file entry point refuses the extended files as well (a trailing line break included)
+            for k in 0..ext.len().min(3) {
+                let mut b = bytes.clone();
+                b.extend_from_slice(&ext[..=k]);
+                if load_via_file(&b).is_some() {
+                    out.push(format!("oracle FAIL from_binary accepts a file extended by {} bytes", k + 1));
+                    break;
+                }
+            }
             true
         }
         ["verbyte", h] => {
